@@ -209,6 +209,7 @@ type TxScript struct {
 	NoClose     bool       `json:"no_close,omitempty"`     // caller forgets Close
 	DoubleClose bool       `json:"double_close,omitempty"` // Close twice
 	HoldReader  bool       `json:"hold_reader,omitempty"`  // keep a body reader across Close
+	stampOut    *int64     // receives the transaction's timestamp (C19)
 }
 
 // ---------------------------------------------------------------- generators
